@@ -438,7 +438,8 @@ func isContainsField(selectionSet ast.SelectionSet, fieldname string) bool {
 	for _, selection := range selectionSet {
 		switch sel := selection.(type) {
 		case *ast.Field:
-			if sel.Name == fieldname {
+			// selected under another alias, the field does not provide the response key the helpers are read from
+			if sel.Name == fieldname && (sel.Alias == "" || sel.Alias == fieldname) {
 				return true
 			}
 		case *ast.InlineFragment:
